@@ -333,6 +333,8 @@ class Project:
             k_t += sum(normalise.eliminate_temps(f.node) for f in fns)
       if k_t:
         self.inlined.append(f'{k_t} single-assignment local(s) substituted')
+      for f in self.funcs.values():
+        f._locals = None   # computed on the tree as written
 
   def _drop_expanded_helpers(self, inline):
     """Module-level helpers whose every use was expanded are dead in the view
